@@ -16,6 +16,8 @@ import (
 	"path/filepath"
 	"sort"
 	"strings"
+	"sync"
+	"time"
 
 	"github.com/gorilla/mux"
 
@@ -350,6 +352,7 @@ func (w *world) addressesBug(m field) bool {
 
 func (w *world) mutate(m field, authed bool, variant string) Obs {
 	o := Obs{Ev: "Mutation", Name: m.Name, Auth: authed, Variant: variant, Valid: variant == "valid", Configured: w.configured}
+	stepBegin(o)
 	if len(m.Args) != 1 {
 		o.Detail = "mutation without a single input argument: only the gate is checked"
 	}
@@ -462,6 +465,7 @@ func (w *world) mutate(m field, authed bool, variant string) Obs {
 
 func (w *world) query(authed bool) Obs {
 	o := Obs{Ev: "Query", Name: "allBugs+bug+identities", Auth: authed, Valid: true, Variant: "valid", Configured: w.configured}
+	stepBegin(o)
 	before := w.snapshot()
 	h := w.noAuth
 	if authed {
@@ -491,6 +495,7 @@ func pngBytes(seed int) []byte {
 
 func (w *world) upload(authed bool, valid bool, seed int) Obs {
 	o := Obs{Ev: "Upload", Name: "upload", Configured: w.configured, Auth: authed, Valid: valid, Variant: map[bool]string{true: "png", false: "not-an-image"}[valid]}
+	stepBegin(o)
 	data := pngBytes(seed)
 	if !valid {
 		data = []byte("plain text is not an accepted upload")
@@ -525,10 +530,41 @@ func (w *world) upload(authed bool, valid bool, seed int) Obs {
 	return o
 }
 
+// stepTimeout: a request against a repository of three bugs answers in milliseconds; one that has not come back after this long
+// (together with the looks at the state before and after it) never will
+const stepTimeout = 120 * time.Second
+
+// the step under way in Run, for the watchdog
+var (
+	stepMu    sync.Mutex
+	stepWhat  Obs
+	stepSince time.Time
+)
+
+func stepBegin(o Obs) {
+	stepMu.Lock()
+	stepWhat, stepSince = o, time.Now()
+	stepMu.Unlock()
+}
+
 // Run: vh api <out>
 func Run(args []string) {
 	out := hx.NewWriter(args[0])
 	defer out.Close()
+	go func() {
+		for {
+			time.Sleep(time.Second)
+			stepMu.Lock()
+			o, since := stepWhat, stepSince
+			stepMu.Unlock()
+			if !since.IsZero() && time.Since(since) > stepTimeout {
+				o.Ev, o.Detail = "Hung", fmt.Sprintf("%s %s (%s) did not come back within %s", o.Ev, o.Name, o.Variant, stepTimeout)
+				out.Put(o)
+				out.Close()
+				os.Exit(0)
+			}
+		}
+	}()
 	w := newWorld("same")
 	defer w.close()
 	muts := w.mutations()
